@@ -36,6 +36,9 @@ def module_node(kind, pos, W, H):
     x, y = pos[0] * W, pos[1] * H
     if kind == 'soft':
         return {'area': 0.02 * W * H, 'center': [x, y]}
+    if kind == 'softr':
+        # a movable soft module that owns exactly one rectangle (centred where the module is)
+        return {'area': 0.02 * W * H, 'rectangles': [[x if x > 0 else 0.1 * W, y if y > 0 else 0.1 * H, 0.2 * W, 0.1 * H]]}
     if kind == 'big':
         return {'area': 0.5 * W * H, 'center': [x, y]}
     if kind == 'term':
@@ -293,11 +296,19 @@ def cases_force(W, H):
         for b in B[:4]:
             yield dict(die=[W, H], mods=[list(a), list(b), ['soft', [0.5, 0.5]]], nets=[[[0, 1, 2], 1]], algo='force',
                        kappa=None, max_iter=3)
+    # a movable module with one rectangle next to soft, big and fixed modules: only its centre may change
+    for b in B:
+        for pos in ((0.5, 0.5), (0.3, 0.7)):
+            for (algo, kappa, it) in (('layout', 1.0, 5), ('layout', 0.4, 20), ('force', None, 3)):
+                yield dict(die=[W, H], mods=[['softr', list(pos)], list(b)], nets=[[[0, 1], 2.5]], algo=algo, kappa=kappa, max_iter=it)
 
 
 def shards(tier):
     dies = [[4, 4], [10.5, 2.5]] if tier == 'quick' else [[4, 4], [10.5, 2.5], [6, 3], [1, 1], [0.3, 0.7]]
     out = []
+    # designs written in small and in large units (all costs below 1e-6, resp. above 1e6) for the argmin clause
+    for die in ([4e-4, 4e-4], [4e3, 2.5e3]):
+        out.append(dict(kind='force', die=die))
     for die in dies:
         for part in range(9):
             out.append(dict(kind='n2', die=die, part=part))
